@@ -472,6 +472,30 @@ theorem scheduler_matches_source :
 
 /-! ## Non-vacuity and regression examples -/
 
+/-- `close_settles` is not vacuous: a server's stream underlay with two sessions — one with a loop blocked
+    in a network write, one being closed by its application — the event loop parked in a read, then
+    `Mux.Close`, every actor run to the end: a reachable state in which Close has been called and nothing
+    can move, and it is settled. -/
+example : ∃ s, UClose.Reach UClose.current true true 2 s ∧ s.mux ≠ .idle ∧ UClose.Quiescent UClose.current s ∧
+    s.n = 2 ∧ UClose.Settled s := by
+  obtain ⟨s, hr, hm, hq, hn, _⟩ := UClose.full_run_witness
+  exact ⟨s, hr, hm, hq, hn, close_settles (Nat.le_refl 2) hr (Or.inr hm) hq⟩
+
+/-- on the schedule on which the unchecked `drainAfterError` parks, the current code leaves -/
+example : (UClose.runActs UClose.current (UClose.init true true 2) UClose.drainTrace).map (·.loop) = some .retn := by decide
+
+/-- `dial_reuses_only_live`: one live underlay is reused, a disabled one and a closed one are not -/
+example : Sched.dial 90000 2 0 200000 200001 [⟨1, false, ⟨0, 150000, 0⟩, 1, false⟩] = .reuse ⟨1, false, ⟨0, 150000, 0⟩, 1, false⟩ ∧
+    Sched.dial 90000 2 0 200000 200001 [⟨1, false, ⟨0, 150000, 199000⟩, 1, false⟩] = .fresh ∧
+    Sched.dial 90000 2 0 200000 200001 [⟨1, true, ⟨0, 150000, 0⟩, 1, false⟩] = .fresh := by decide
+
+/-- a Write of three chunks under a 500 ms write deadline on a stalled connection: the third chunk times
+    out at 500; three Reads back to back under a 500 ms read deadline: fed, fed, starved → 500 -/
+example : (Deadline.writeChunks true ⟨0, 500, 0⟩ 0 [some 10, some 20, none]).2 = .at 500 true ∧
+    (Deadline.readLoop false ⟨500, 0, 0⟩ 0 [some 100, some 200, none]).2 = .at 500 true ∧
+    (Deadline.writeChunks true ⟨0, 0, 0⟩ 0 [some 10, some 20]).1.resp = 10020 := by decide
+
+
 /-- three closers, one interleaving: B wins the CAS, A loses, B finishes, C loses -/
 example : ∃ s, CReach 3 s ∧ allDone s ∧ s.closes = 1 := by
   let s0 := initSys 3
